@@ -117,7 +117,8 @@ def vm_stage(run, ck, topic, n_quick, n_thorough, extra=None):
     simple_violations(run, ck, verdicts, recs, topic + "/vm")
     cands, drift, summ = run.collected["CAND"], run.collected["DRIFT"], run.last_summary
     st = run.stages[-1]
-    st.update({"vm_steps": summ[2], "model_drift": summ[3], "candidate_valuations": summ[4], "valuations_of_real_bytecode": summ[5]})
+    st.update({"vm_steps": summ[2], "model_drift": summ[3], "candidate_valuations": summ[4], "valuations_of_real_bytecode": summ[5],
+               "programs_identical_to_Compile_tla": summ[6]})
     run.evaluations += summ[5]
     for d in drift[:5]:
         ck.log("[vm] model drift (diagnostic): %s" % d)
@@ -267,6 +268,8 @@ def c10(run, ck):
 
 def c12(run, ck):
     eval_stage(run, ck, "refs", 0, 0, parts=8)
+    # cycles of length 1 and 2 through all 16 referencing constructs, also under ||, coalesce and has: they end in an error
+    eval_stage(run, ck, "cycles", 0, 0, parts=8)
     vm_stage(run, ck, "refs", 120, 1500)
     return dict(rule="every reference graph on <= 3 programs (each node: one successor or a leaf) with every referencing construct on the edges, sampled out-degree-2 graphs on <= 4 programs, "
                      "chains of length 1..64 through each construct, every case in a child process (main thread and a 2 MB thread); name-collision configurations of one name as type/variable/program/function/macro/map field",
@@ -321,6 +324,8 @@ def c13(run, ck):
 
 def c01(run, ck):
     eval_stage(run, ck, "total", 100, 100, env={"ONLYCRASH": "1"})
+    # reference cycles of length 1 and 2 through all 16 referencing constructs, in child processes (8 MB and 2 MB stacks)
+    eval_stage(run, ck, "cycles", 0, 0, env={"ONLYCRASH": "1"})
     out = os.path.join(run.work, "fuzz.ndjson")
     run.drive("fuzz", 40000 if run.thorough else 2500, out)
     verdicts, recs = run.validate(out, "Trace_Parse", cfg="Trace_Parse.cfg", parts=8, label="fuzz")
